@@ -39,6 +39,16 @@ CHECKS = {
    text="Proved: processBatch = batchSpec (fold); results correspond in order to a prefix of the items echoing operation and ID; Stop ends at the first failure, Continue reports every item; a failing item leaves engine and store untouched; a batch whose items all fail changes nothing; a request rejected as a whole (incl. missing batch item ID, after the repair) executed nothing; otherwise the reported results are exactly those of the executed fold. Tied to /repo by generated batches of 1..6 mixed items with/without IDs under Stop/Continue/Undo compared with the model incl. store dumps.",
    note=TRUST + "SQLAlchemy session semantics (dirty objects carried between batch items) are not modelled: the model has no pending state, so a handler that mutates before failing shows up as a correspondence divergence, not as a theorem failure.",
    ref="§5 C08"),
+ "C09": dict(
+   technique="Lean 4 theorems over a transaction/crash model (all-or-nothing, acknowledged => durable, no half key pair, reopen invariant) + fault enumeration: process kills at every SQL statement and commit boundary with the file reopened",
+   text="PARTIAL (SQLite's atomic commit is the hypothesis). Proved: for an operation whose trace is writes, one COMMIT, response - whatever the crash index, the recovered store is the store before or the store with the operation wholly applied; before the COMMIT nothing is visible however many statements ran; if the response had been produced the operation is in effect after restart; CreateKeyPair's two inserts are in one transaction (both or neither); every recovered store satisfies the identifier invariant under which listing is defined. Tied to /repo by (i) recording the real statement/commit/response trace of 17 state-changing operation cases (Create, CreateKeyPair, Register x3, DeriveKey, Activate, Revoke x2, Destroy x2, Set/Modify/DeleteAttribute in both forms) and checking it has the assumed shape, and (ii) killing a child server process with os._exit immediately before every write statement, before and after the DBAPI COMMIT and after the response, reopening the surviving SQLite file with a fresh engine and comparing the complete object dump with the before/after stores (plus raw-table consistency and Locate/GetAttributes of everything).",
+   note=TRUST + "Not modelled: power loss / fsync / filesystem behaviour; SQLAlchemy's unit of work (observed through its statement trace).",
+   ref="§5 C09"),
+ "C10": dict(
+   technique="Lean 4 serializability theorem for the lock model (invariant over schedules) + decide over the regenerated table of engine entry points; threaded correspondence on one real engine against the serial model execution in recorded lock order",
+   text="PARTIAL (CPython scheduling and SQLite/SQLAlchemy thread-safety are not modelled). Proved: for every schedule the lock semantics permit - any interleaving of any number of sessions - the shared state equals that of the serial execution in lock-acquisition order, which takes each session's requests in its own order (locked_serializable, by an invariant that only the lock holder is inside a request); a microstep reading what its own request wrote sees that value; on the table regenerated from /repo every engine entry point called from session/server code that transitively writes a shared field (_client_identity, _protocol_version, _attribute_policy, _data_session, _id_placeholder, is_asynchronous) is @_synchronize'd, and process_request is such an entry. Tied to /repo by running 2-4 real session threads with different identities and protocol versions against ONE real KmipEngine with forced and injected context switches (lock, access-control choke point, version switch), recording the lock order, and requiring every response, the echoed version and the final store to equal the Lean engine model's serial execution of that order (all merges are tried when no lock order is observable).",
+   note=TRUST,
+   ref="§5 C10"),
  "C11": dict(
    technique="Lean 4 non-interference theorem (response and store are functions of request, identity, context and persistent store) + live-vs-fresh-engine differential",
    text="Proved: processRequest on any engine equals processRequest on the restarted engine (same store, all transient fields reset), for responses and resulting store; corollary over all histories. Tied to /repo by sending every probe both to the live engine and to a fresh KmipEngine opened on a copy of the database taken just before (implementation-vs-implementation monitor), probes biased to identifier-less requests for the 14 placeholder-reading handlers and to version/identity switches.",
